@@ -242,6 +242,8 @@ class URL:
             url = path
         else:
             host, port = server
+            if ":" in host and not host.startswith("["):
+                host = f"[{host}]"  # IPv6 literal
             default_port = {"http": 80, "https": 443, "ws": 80, "wss": 443}[scheme]
             if port == default_port or port is None:
                 url = f"{scheme}://{host}{path}"
